@@ -1376,13 +1376,16 @@ def run(ctx: core.Ctx):
         "one _GitFile handle per actor; actors are threads of one process driven at interposed os.* calls plus "
         "write()/flush() of the handle's file object",
     ]
-    _run_corpus(ctx, root, lines)
-    _stream_exhaustive2(ctx, root, lines)
-    _stream_faults2(ctx, root, lines)
-    _stream_three(ctx, root, lines)
-    _stream_random(ctx, root, lines)
-    flush_model(ctx, lines)
-    _stream_fault_callers(ctx, base / "callers")
+    streams = [lambda: _run_corpus(ctx, root, lines), lambda: _stream_exhaustive2(ctx, root, lines),
+               lambda: _stream_faults2(ctx, root, lines), lambda: _stream_three(ctx, root, lines),
+               lambda: _stream_random(ctx, root, lines), lambda: _stream_fault_callers(ctx, base / "callers")]
+    for st in streams:
+        st()
+        flush_model(ctx, lines)
+        if len(ctx.oracle_failures) > 300:
+            # the verdict is settled (VIOLATION with concrete cases); do not spend minutes collecting more
+            ctx.notes.append("stopped early: more than 300 oracle failures")
+            break
 
 
 def search(ctx: core.Ctx):
